@@ -411,6 +411,27 @@ def handleKernel (line : String) : Option String :=
       match b.toNat?, n.toNat?, ms.mapM nats with
       | some B, some n, some ms => some (match GraphDef.inverseMapMat B n ms with | some m => "some " ++ showNats m | none => "none")
       | _, _, _ => some "ERR parse"
+    | ["save.layout", completed, n], [sizes, layerIdx, hashLens, edges, ngens] =>
+      -- layout (keys and shapes) of the store `save` writes for a result with the given structure
+      match n.toNat?, nats sizes, nats layerIdx, nats hashLens, ngens.toNat? with
+      | some n, some sizes, some li, some hl, some ng =>
+        let r : SaveLoad.Res :=
+          { completed := completed == "1", layerSizes := sizes,
+            layers := li.map (fun i => (i, List.replicate (sizes.getD i 0) (List.replicate n 0))),
+            layersHashes := hl.map (fun k => List.replicate k 0),
+            edges := if edges == "none" then none else (edges.toNat?.map fun k => List.replicate k (0, 0)),
+            gens := List.replicate ng (List.range n), genNames := List.replicate ng "g",
+            central := List.range n, name := "" }
+        let showVal : SaveLoad.Val → String
+          | .flag _ => "flag"
+          | .ints sh _ => "ints" ++ toString sh
+          | .strs l => "strs[" ++ toString l.length ++ "]"
+          | .str _ => "str"
+          | .emptyMarker => "empty"
+        let st := SaveLoad.save r
+        let rt := match SaveLoad.load st with | some r' => (if SaveLoad.beq r' r && SaveLoad.beq r r' && r' == r then "1" else "0") | none => "none"
+        some (" ".intercalate (st.map fun (p : String × SaveLoad.Val) => p.1 ++ "=" ++ showVal p.2) ++ " ; " ++ rt)
+      | _, _, _, _, _ => some "ERR parse"
     | ["hash.mix"], [x] => (wordsOf x).map fun l => showInts (l.map fun w => Hash.key (Hash.evalMix Gen.mixSteps w))
     | ["hash.comb", seed], rows =>
       match seed.toInt?, rows.mapM wordsOf with
